@@ -145,6 +145,78 @@ def _consumer(eng, case, front):
     eng.reach('end')
 
 
+def h_cons2(eng, case):
+    """several Interests for the same Data, each with its own validator: every caller gets the outcome decided by the
+    validator supplied for ITS Interest, and every validator is consulted"""
+    import ndn.types as types
+    import ndn.encoding as enc
+    front = case['front']
+    app, face = appenv.make_app(front)
+    n = case['consumers']
+    VR = list(types.ValidResult)
+    verdicts = VR if front == 'v2' else [True, False]
+    chosen = {}
+    out = {}
+    names = ['/a'] * n                                    # (the third one, if any, asks with CanBePrefix)
+
+    def mk_validator(i):
+        if front == 'v2':
+            async def v(name, sig, ctx):
+                chosen[i] = verdicts[eng.choice(len(verdicts), 'verdict%d' % i)]
+                return chosen[i]
+        else:
+            async def v(name, sig):
+                chosen[i] = verdicts[eng.choice(len(verdicts), 'verdict%d' % i)]
+                return chosen[i]
+        return v
+
+    async def consumer(i):
+        try:
+            if front == 'v2':
+                nm, content, ctx = await app.express(names[i], mk_validator(i), lifetime=4000, nonce=7 + i,
+                                                     can_be_prefix=(i >= 2))
+            else:
+                nm, meta, content = await app.express_interest(names[i], validator=mk_validator(i), lifetime=4000,
+                                                               nonce=7 + i, can_be_prefix=(i >= 2))
+            out[i] = ('data', bytes(content))
+        except types.ValidationFailure as e:
+            out[i] = ('vfail', getattr(e, 'result', None))
+        except Exception as e:
+            out[i] = (type(e).__name__,)
+    data = bytes(enc.make_data('/a', enc.MetaInfo(), b'payload'))
+
+    async def main(loop):
+        ts = [asyncio.ensure_future(consumer(i)) for i in range(n)]
+        await asyncio.sleep(0)
+        await vloop.sleep_until(loop, loop.at_ms(10))
+        await app._receive(6, data)
+        for t in ts:
+            await t
+    loop, r, err = appenv.run(eng, main)
+    if err == 'deadlock':
+        eng.fail('consumer-finishes', 'deadlock')
+        return
+    for i in range(n):
+        eng.check(i in chosen, 'own-validator-consulted', {'consumer': i, 'outcome': repr(out.get(i))},
+                  sig='validator-of-another-interest-decided')
+        if i not in chosen:
+            continue
+        v = chosen[i]
+        if front == 'v2':
+            exp = ('data', b'payload') if v in (types.ValidResult.PASS, types.ValidResult.ALLOW_BYPASS) else ('vfail', v)
+        else:
+            exp = ('data', b'payload') if v else ('vfail', None)
+        got = out.get(i)
+        if front == 'v1' and got is not None and got[0] == 'vfail':
+            got = ('vfail', None)
+        eng.check(got == exp, 'consumer-decision-table', {'consumer': i, 'got': repr(got), 'expected': repr(exp)},
+                  sig='%s-instead-of-%s:several-consumers' % (got[0] if got else None, exp[0]))
+    if loop.errors:
+        exc = loop.errors[0].get('exception')
+        eng.fail('no-unhandled-error-in-loop', exc_sig(exc) if exc is not None else str(loop.errors[0].get('message')))
+    eng.reach('end')
+
+
 def h_cons_v2(eng, case):
     _consumer(eng, case, 'v2')
 
@@ -319,12 +391,15 @@ def h_prod_v1(eng, case):
     _producer(eng, case, 'v1')
 
 
-HARNESSES = {'cons_v2': h_cons_v2, 'cons_v1': h_cons_v1, 'prod_v2': h_prod_v2, 'prod_v1': h_prod_v1}
+HARNESSES = {'cons2': h_cons2, 'cons_v2': h_cons_v2, 'cons_v1': h_cons_v1, 'prod_v2': h_prod_v2, 'prod_v1': h_prod_v1}
 
 
 def cases(tier, seed):
     cs = [('cons_v2', {}, {'weight': 20}), ('cons_v1', {}, {'weight': 20}), ('cons_v2', {'defer': True}, {'weight': 40})]
     quick = tier == 'quick'
+    for front in ('v2', 'v1'):
+        for n in (2, 3):
+            cs.append(('cons2', {'front': front, 'consumers': n}, {'weight': 10}))
     for front in ('prod_v2', 'prod_v1'):
         for variant in ('plain', 'params', 'signed'):
             for val in (True, False):
